@@ -212,7 +212,7 @@ func simC14pcap(c *sim.Ctx) {
 		readAll(drawStream(c, file[:k]), false, "truncation", k, false)
 	}
 	// second reader: libpcap
-	if c.Chance(40) || (c.Thorough() && c.Chance(150)) {
+	if c.Chance(150) || (c.Thorough() && c.Chance(150)) {
 		libpcapCheck(c, file, pkts, lt, nanos, "pcap")
 	}
 }
@@ -471,6 +471,33 @@ func simC14ng(c *sim.Ctx) {
 	}
 	file := f.Data
 	c.Ev("ng_file", int64(len(intfs)), int64(n), int64(len(file)), b2i(mixedLT))
+	// block framing, checked on the bytes themselves (NgReader never looks at
+	// the trailing copy of the block length, every other reader does): type,
+	// total length, body, total length again; lengths are multiples of 4, the
+	// blocks tile the file, and every packet's block ends where the writer said
+	{
+		ends := map[int]bool{}
+		for off := 0; off < len(file); {
+			if off+12 > len(file) {
+				c.Fail("roundtrip", "block-framing", "NgWriter", "%d stray bytes at offset %d after the last block", len(file)-off, off)
+			}
+			bl := int(uint32(file[off+4]) | uint32(file[off+5])<<8 | uint32(file[off+6])<<16 | uint32(file[off+7])<<24)
+			if bl < 12 || bl%4 != 0 || off+bl > len(file) {
+				c.Fail("roundtrip", "block-framing", "NgWriter", "block at offset %d declares total length %d (file has %d bytes)", off, bl, len(file))
+			}
+			tl := int(uint32(file[off+bl-4]) | uint32(file[off+bl-3])<<8 | uint32(file[off+bl-2])<<16 | uint32(file[off+bl-1])<<24)
+			if tl != bl {
+				c.Fail("roundtrip", "block-framing", "NgWriter", "block at offset %d (type %#x): total length is %d in front and %d behind the body", off, file[off], bl, tl)
+			}
+			off += bl
+			ends[off] = true
+		}
+		for i, p := range pkts {
+			if !ends[p.end] {
+				c.Fail("roundtrip", "block-framing", "NgWriter", "packet %d was complete at offset %d according to the writer, no block ends there", i, p.end)
+			}
+		}
+	}
 	sameLT := true
 	for _, in := range intfs {
 		if in.LinkType != intfs[0].LinkType {
@@ -595,7 +622,7 @@ func simC14ng(c *sim.Ctx) {
 		k := cuts[c.Draw(len(cuts))]
 		readAll(drawStream(c, file[:k]), false, mixed, "truncation", k)
 	}
-	if sameLT && intfs[0].LinkType != layers.LinkTypeRaw && sameSnap(intfs) && noOffset(intfs) && (c.Chance(40) || (c.Thorough() && c.Chance(150))) {
+	if sameLT && intfs[0].LinkType != layers.LinkTypeRaw && sameSnap(intfs) && noOffset(intfs) && (c.Chance(150) || (c.Thorough() && c.Chance(150))) {
 		libpcapCheck(c, file, pkts, intfs[0].LinkType, true, "pcapng")
 	}
 }
